@@ -86,7 +86,7 @@ def interval_root(state, data, dim, eps, delta=1e-12):
         else:
             # the memoised recursion is keyed order-insensitively: enclose every child order
             best_l = best_u = None
-            orders = list(itertools.permutations(range(len(rs)))) if len(rs) <= 4 else [tuple(range(len(rs)))]
+            orders = list(itertools.permutations(range(len(rs))))  # at most 6 children in the enumerated forests
             for od in orders:
                 dl, du = interval_conv(rs[od[0]][0], rs[od[0]][1], rs[od[1]][0], rs[od[1]][1], eps, delta)
                 for j in od[2:]:
@@ -151,7 +151,7 @@ def case(item):
     for d in range(dims):
         L, U = interval_root(state, data, d, eps)
         E = oracle.recursion_root_vector(state, data, d) if not fft else None
-        if G ** K <= 4000 and not fft:
+        if G ** K <= 20000 and not fft:
             lit = oracle.exact_root_vector(state, data, d)
             res["literal"] = True
             if float(np.max(np.abs(lit - E))) > 1e-9:
@@ -184,7 +184,7 @@ def case(item):
 
 def items(tier, seed):
     out = []
-    Ks = (1, 2, 3, 4) if tier == "quick" else (1, 2, 3, 4, 5)
+    Ks = (1, 2, 3, 4) if tier == "quick" else (1, 2, 3, 4, 5, 6)
     for K in Ks:
         for par in oracle.forests(K):
             for G in (2, 3, 4, 5):
@@ -192,8 +192,10 @@ def items(tier, seed):
                     kinds = ["generic", "flat", "peaked", "extreme", "seeded", "needle"]
                     if K >= 4 and tier == "quick":
                         kinds = [kinds[(sum(par) + G + dims) % 5], "extreme", "needle"] if G in (3, 5) else []
-                    if K == 5:
+                    if K == 5 and tier == "quick":
                         kinds = [kinds[(sum(par) + G) % 5]] if (G == 3 and dims == 1) else []
+                    if K == 6:
+                        kinds = [kinds[(sum(par) + G) % 6]] if (G in (2, 3) and dims == 1) else []
                     for kind in kinds:
                         out.append((par, G, dims, kind, seed))
     # the switch from direct to FFT convolution
@@ -201,7 +203,7 @@ def items(tier, seed):
     for K in Kf:
         pars = list(oracle.forests(K))
         for pi, par in enumerate(pars):
-            if K == 4 and pi % 5:
+            if K == 4 and pi % 5 and tier == "quick":
                 continue
             for G in (999, 1000, 1001):
                 kinds = ("generic", "peaked", "needle") if tier == "quick" else ("generic", "flat", "peaked", "extreme", "needle")
